@@ -94,6 +94,8 @@ type pubScn struct {
 	script  []string
 	tainted map[types.Uid]bool
 	noteStepFixed *[2]any
+	c09st         *c09State
+	onMe          bool
 	readonly bool
 }
 
